@@ -344,7 +344,7 @@ func c03cgCase(c *Ctx, src string, ssx SX, vecs [][]*big.Int, ref *c03Compiled) 
 			c03cgReplay{Program: src, Real: c03cgStat(ref.circ), Replica: c03cgStat(raw.circ)})
 		return
 	}
-	if !c03cgEmit(c, src, ssx, vecs, &raw, ref.circ, c03cgOpt{}) {
+	if !c03cgEmit(c, src, ssx, vecs, &raw, ref.circ, c03cgOpt{}, false) {
 		return
 	}
 	// GMW target: every third program with a small circuit
@@ -370,13 +370,15 @@ func c03cgCase(c *Ctx, src string, ssx SX, vecs [][]*big.Int, ref *c03Compiled) 
 		if !c03cgHasDiv(g.prog) {
 			cmp = ref.circ // without division both targets compute the same function
 		}
-		c03cgEmit(c, src, ssx, vecs, &g, cmp, c03cgOpt{gmw: true})
+		c03cgEmit(c, src, ssx, vecs, &g, cmp, c03cgOpt{gmw: true}, false)
 	}
 }
 
 // c03cgEmit: one case for the snapshot raw.  cmp != nil: the circuit whose
 // outputs raw.circ must reproduce (oracle).  Returns false if nothing was emitted.
-func c03cgEmit(c *Ctx, src string, ssx SX, vecs [][]*big.Int, raw *c03cgRaw, cmp *circuit.Circuit, opt c03cgOpt) bool {
+// force: a directed program — emitted whatever its size (no gate budget; a
+// single vector when the circuit is huge).
+func c03cgEmit(c *Ctx, src string, ssx SX, vecs [][]*big.Int, raw *c03cgRaw, cmp *circuit.Circuit, opt c03cgOpt, force bool) bool {
 	tgt := "yao"
 	if opt.gmw {
 		tgt = "gmw"
@@ -388,6 +390,9 @@ func c03cgEmit(c *Ctx, src string, ssx SX, vecs [][]*big.Int, raw *c03cgRaw, cmp
 	lim := c.N(8, 40)
 	if len(raw.gates) >= 10000 {
 		lim = c.N(2, 8)
+	}
+	if len(raw.gates) >= 100000 {
+		lim = 1
 	}
 	if nv > lim {
 		nv = lim
@@ -419,7 +424,7 @@ func c03cgEmit(c *Ctx, src string, ssx SX, vecs [][]*big.Int, raw *c03cgRaw, cmp
 	if c03cgCtx != c {
 		c03cgCtx, c03cgBudget = c, c.N(300000, 20000000)
 	}
-	if len(raw.gates) >= 10000 {
+	if len(raw.gates) >= 10000 && !force {
 		if c03cgBudget < len(raw.gates) {
 			c.Hist("cg-skipped:big-circuit-gate-budget")
 			return false
@@ -501,11 +506,13 @@ func c03cgEmit(c *Ctx, src string, ssx SX, vecs [][]*big.Int, raw *c03cgRaw, cmp
 // listing goes through eval_ssa (mode 1) and circuit_of_ssa (modes 4-7).
 
 type c03cgDirected struct {
-	name     string
-	src      string
-	widths   []int
-	peephole bool
-	expect   func(in []*big.Int) []*big.Int
+	name        string
+	src         string
+	widths      []int
+	peephole    bool
+	expect      func(in []*big.Int) []*big.Int // nil: no oracle (correspondence only)
+	noGmwOracle bool                           // division: the GMW (Goldschmidt) divider is not exact (F33)
+	thorough    bool                           // thorough tier only
 }
 
 func c03cgPopcount(v *big.Int) int64 {
@@ -578,12 +585,62 @@ func c03cgDirectedPrograms() []c03cgDirected {
 				return []*big.Int{big.NewInt(b), big.NewInt(1 - b), big.NewInt(b), big.NewInt(1 - b)}
 			}})
 	}
+	// divisions whose operands and result differ in width (found by the
+	// thorough tier after /repo cfc357f changed the GMW divider: ZeroPad of the
+	// operands, muxResult): a typed constant narrower than the variable
+	// (operand widths 6 / 3), and a literal in its 32-bit container with a
+	// 3-bit variable and a 3-bit result (the GMW circuit has > 400 000 gates).
+	udiv := func(w int, x, y *big.Int) *big.Int { // x / y on w bits, all-ones for y = 0
+		if y.Sign() == 0 {
+			return c03Mask(w)
+		}
+		return c03Norm(w, new(big.Int).Div(x, y))
+	}
+	umod := func(w int, x, y *big.Int) *big.Int {
+		if y.Sign() == 0 {
+			return c03Norm(w, x)
+		}
+		return c03Norm(w, new(big.Int).Mod(x, y))
+	}
+	l = append(l, c03cgDirected{
+		name:        "div:uint6/uint3(3),uint3(5)%uint6",
+		src:         "package main\n\nfunc main(a uint6) (uint6, uint6) {\n\treturn a / uint3(3), uint3(5) % a\n}\n",
+		widths:      []int{6},
+		noGmwOracle: true,
+		expect: func(in []*big.Int) []*big.Int {
+			return []*big.Int{udiv(6, in[0], big.NewInt(3)), umod(6, big.NewInt(5), in[0])}
+		}})
+	l = append(l, c03cgDirected{
+		name:   "div:int6/int3(3),int3(2)%int6",
+		src:    "package main\n\nfunc main(a int6) (int6, int6) {\n\treturn a / int3(3), int3(2) % a\n}\n",
+		widths: []int{6}})
+	l = append(l, c03cgDirected{
+		name:        "div:5%uint3",
+		src:         "package main\n\nfunc main(a uint3) uint3 {\n\treturn 5 % a\n}\n",
+		widths:      []int{3},
+		noGmwOracle: true,
+		expect: func(in []*big.Int) []*big.Int {
+			return []*big.Int{umod(3, big.NewInt(5), in[0])}
+		}})
+	for _, d := range []struct {
+		w        int
+		ty, expr string
+	}{{14, "uint14", "a / 5"}, {14, "uint14", "100 % a"}, {33, "uint33", "a % 255"}, {56, "uint56", "a % 255"}, {14, "int14", "7 % a"}} {
+		l = append(l, c03cgDirected{
+			name:     "div:" + d.ty + ":" + d.expr,
+			src:      fmt.Sprintf("package main\n\nfunc main(a %s) %s {\n\treturn %s\n}\n", d.ty, d.ty, d.expr),
+			widths:   []int{d.w},
+			thorough: true})
+	}
 	return l
 }
 
 // c03cgOpcodeFamily runs the directed programs (every run, both targets).
 func c03cgOpcodeFamily(c *Ctx) {
 	for _, d := range c03cgDirectedPrograms() {
+		if d.thorough && !c.Thorough() {
+			continue
+		}
 		vecs := c03Vectors(c.rng.Fork(), d.widths, 10, 24)
 		var ssx SX
 		for ti, opt := range []c03cgOpt{{peephole: d.peephole}, {gmw: true, peephole: d.peephole}} {
@@ -606,12 +663,16 @@ func c03cgOpcodeFamily(c *Ctx) {
 			reported, bad := false, false
 			for _, v := range vecs {
 				got, e := c03Compute(raw.circ, v)
-				want := d.expect(v)
 				c.Eval(d.src+"|"+c03VecStr(v), true)
 				if e != "" {
 					bad = true
 				}
-				if (e != "" || fmt.Sprint(got) != fmt.Sprint(want)) && !reported {
+				var want []*big.Int
+				check := d.expect != nil && !(opt.gmw && d.noGmwOracle)
+				if check {
+					want = d.expect(v)
+				}
+				if (e != "" || (check && fmt.Sprint(got) != fmt.Sprint(want))) && !reported {
 					reported = true
 					c.Fail("c03cg:directed:"+d.name+":wrong-value",
 						fmt.Sprintf("inputs %s: circuit %s %s, expected %s", c03VecStr(v), c03VecStr(got), e, c03VecStr(want)),
@@ -634,7 +695,7 @@ func c03cgOpcodeFamily(c *Ctx) {
 				c.Case(L(I(1), ssx, c03VecSX(vecs)), c03VecSX(outs))
 				c.Hist("ssa-listing-cases:directed")
 			}
-			c03cgEmit(c, d.src, ssx, vecs, &raw, nil, opt)
+			c03cgEmit(c, d.src, ssx, vecs, &raw, nil, opt, true)
 		}
 	}
 }
